@@ -230,3 +230,75 @@ func VerifC18Inner() {
 	})
 	verifrt.Reached("end")
 }
+
+// VerifC18Fields: structure-aware inputs. Every length, size and count field
+// is a varint; here two nested ones are produced from symbolic 64-bit values
+// over their complete range (all ten varint length classes), which n
+// arbitrary bytes cannot reach within the byte bound: an outer object of
+// every tagged kind whose size field is s1, holding an inner tag, a field s2
+// and k arbitrary bytes - through DecodeObject and through the type's own
+// UnmarshalBinary (which nested decoding calls without the length check
+// DecodeObject makes first).
+func VerifC18Fields() {
+	tags := [...]byte{binArrayV1, binMapV1, binSyncMapV1, binCompiledFunctionV1, binStringV1, binBytesV1, binFunctionV1, binBuiltinFunctionV1}
+	kind := verifrt.Param("kind")
+	s1 := verifrt.Int64("s1")
+	s2 := verifrt.Int64("s2")
+	// one of the two fields ranges over all of int64, the other over the
+	// sizes that can be consistent with an input this short
+	if verifrt.Param("wide") == 1 {
+		verifrt.Assume(s2 >= -1 && s2 <= 64)
+	} else {
+		verifrt.Assume(s1 >= -1 && s1 <= 64)
+	}
+	var vi varintConv
+	data := []byte{tags[kind]}
+	data = append(data, vi.toBytes(s1)...)
+	if inner := verifrt.Choice("inner", len(tags)+1); inner < len(tags) {
+		data = append(data, tags[inner])
+	}
+	data = append(data, vi.toBytes(s2)...)
+	data = append(data, verifrt.Bytes("t", verifrt.Param("k"))...)
+	verifrt.AllocBudget(1 << 16)
+	verifrt.NoPanic("decode-no-panic", func() {
+		_, _ = DecodeObject(bytes.NewReader(data))
+	})
+	verifrt.NoPanic("unmarshal-no-panic", func() {
+		switch tags[kind] {
+		case binArrayV1:
+			var o Array
+			_ = o.UnmarshalBinary(data)
+		case binMapV1:
+			o := Map{}
+			_ = o.UnmarshalBinary(data)
+			var z Map // the zero value is a valid receiver of a BinaryUnmarshaler
+			_ = z.UnmarshalBinary(data)
+		case binSyncMapV1:
+			var o SyncMap
+			_ = o.UnmarshalBinary(data)
+		case binCompiledFunctionV1:
+			var o CompiledFunction
+			_ = o.UnmarshalBinary(data)
+		case binStringV1:
+			var o String
+			_ = o.UnmarshalBinary(data)
+		case binBytesV1:
+			var o Bytes
+			_ = o.UnmarshalBinary(data)
+		case binFunctionV1:
+			var o Function
+			_ = o.UnmarshalBinary(data)
+		case binBuiltinFunctionV1:
+			var o BuiltinFunction
+			_ = o.UnmarshalBinary(data)
+		}
+	})
+	// the same bytes as a source file and a file set
+	verifrt.NoPanic("sourcefile-no-panic", func() {
+		var sf SourceFile
+		_ = sf.UnmarshalBinary(data[1:])
+		var fs SourceFileSet
+		_ = fs.UnmarshalBinary(data[1:])
+	})
+	verifrt.Reached("end")
+}
